@@ -69,11 +69,17 @@ func NewService(uri string) (svc *Service, err error) {
 	}, err
 }
 
+// runCounterFileMu guards the read-increment-write of <coreWorkingDir>/runcounter.txt.
+var runCounterFileMu sync.Mutex
+
 func (s *Service) NewRunNumber() (runNumber uint32, err error) {
 	if cSrc, ok := s.src.(*cfgbackend.ConsulSource); ok {
 		return cSrc.GetNextUInt32(filepath.Join(getConsulRuntimePrefix(), "run_number"))
 	} else {
-		// Unsafe check-and-set, only for file backend
+		// Check-and-set on a local file, only for file backend: callers of this
+		// process (environments starting at once) are serialized
+		runCounterFileMu.Lock()
+		defer runCounterFileMu.Unlock()
 		var rnf string
 		rnf = filepath.Join(viper.GetString("coreWorkingDir"), "runcounter.txt")
 		if _, err = os.Stat(rnf); os.IsNotExist(err) {
